@@ -149,18 +149,33 @@ def gen_case(rng, focus, rules, names):
                 pool.append(keys_[1])
     pool = list(dict.fromkeys(pool))
     p.break_link = rng.random() < 0.08     # a ratio field without its weight somewhere (KeyError/TypeError)
+    if p.flavor == "unknown_field":
+        # the property names TriangleError for a field without a rule; a broken link at an EARLIER coordinate would
+        # raise its own KeyError/TypeError/ValueError first (latent false alarm, 1 in ~70k cases before this line)
+        p.break_link = False
     n_samples = rng.choice([2, 3, 4])
     base_kind = rng.choice(["int", "float", "iarr", "farr"])
     uniform = rng.random() < 0.6
     fkind = {f: (base_kind if uniform else rng.choice(["int", "float", "iarr", "farr"])) for f in pool}
     p.mixed = rng.random() < 0.08          # kinds / shapes vary cell by cell
+    if p.flavor == "unknown_field":
+        p.mixed = False    # an int64 array += float (TypeError) at an earlier coordinate would hide the TriangleError
     p.per_cell_subsets = rng.random() < 0.2
+    # ratio fields whose sample arrays have ANOTHER LENGTH in every second slice (weights scalar, or arrays of the
+    # slice's own length): the weighted average of unequal shapes is refused with ValueError (summarize.py:179-183)
+    # (not combined with the TriangleError refusals of the property: whichever coordinate comes first would decide
+    # the class)
+    p.ratio_clash = (bool(linked) and p.n_slices > 1 and p.refuse is None and p.flavor != "unknown_field"
+                     and rng.random() < 0.14)
+    clash_weight_arrays = rng.random() < 0.4
     rows = gen.layout_regular(rng, shape=rng.choice(["square", "triangle", "ragged"]))
     keep = rng.choice([1.0, 0.85, 0.6])
     weights_of = set(linked.values())
     cells = []
-    for m in metas:
+    for si, m in enumerate(metas):
         fs = [f for f in pool if rng.random() < (0.9 if f == focus else 0.7)] or [focus]
+        if p.ratio_clash:
+            fs = list(dict.fromkeys(fs + list(linked)))
         for f, w in linked.items():
             if f in fs and w not in fs and not (p.break_link and rng.random() < 0.5):
                 fs.append(w)
@@ -184,8 +199,17 @@ def gen_case(rng, focus, rules, names):
                     n = n_samples
                     if p.mixed:
                         k = rng.choice(["int", "float", "iarr", "farr"])
-                        if rng.random() < 0.15:
+                        # (array lengths vary only where no TriangleError refusal is expected: a shape clash at an
+                        # earlier coordinate would raise ValueError first)
+                        if rng.random() < 0.15 and not (p.refuse or p.flavor == "unknown_field"):
                             n = rng.choice([2, 3, 4])
+                    if p.ratio_clash and (f in linked or f in weights_of):
+                        n = n_samples + (si % 2)
+                        if f in linked:
+                            k = "farr" if k in ("float", "farr") else "iarr"
+                        else:
+                            k = ("farr" if clash_weight_arrays else "float") if k in ("float", "farr") else (
+                                "iarr" if clash_weight_arrays else "int")
                     if f.lower() == "log_industry_lr":
                         vals[f] = small_val(rng, k, n)
                     elif f in weights_of:
@@ -397,6 +421,8 @@ def correspondence(ctx):
         ctx.count(f"summarize/class={p.kind}")
         ctx.count(f"summarize/prem={p.prem}")
         ctx.count(f"summarize/flavor={p.flavor}")
+        if getattr(p, "ratio_clash", False):
+            ctx.count("summarize/ratio arrays of unequal length across slices: " + impl.get("err", "ok"))
         ctx.count("summarize/" + ("err=" + impl["err"] if "err" in impl else "ok"))
         if p.mixed:
             ctx.count("summarize/mixed-kinds")
@@ -488,7 +514,8 @@ if __name__ == "__main__":
              "reinsurance_basis/loss_definition/per_occurrence_limit/details/loss_details (changed, added, removed "
              "entries, shared None entries), 5%+5% with mixed currency / risk basis; each slice carries a subset of the "
              "pool, optionally per-cell subsets; int/float/int64-array/float64-array values (dyadic), an 8% stream "
-             "mixing kinds and shapes cell by cell; Cell/CumulativeCell/IncrementalCell; summarize_premium both ways; "
+             "mixing kinds and shapes cell by cell, a 12% stream (of cases with a ratio field) whose ratio arrays differ in "
+             "length between slices (ValueError); Cell/CumulativeCell/IncrementalCell; summarize_premium both ways; "
              "custom summary_fns (new and overriding), unknown and upper-case field names; plus summarize_cell_values "
              "on arbitrary sub-lists. SEQUENCE stream (30% of cases): cached accessors of the input read first, priming calls of summarize / summarize_cell_values / aggregate on another input with custom summary_fns and other options, the call under test with default arguments omitted, input dump compared before/after, accessors of the result compared with a fresh triangle of its cells, the result spoiled in place (arrays zeroed, dicts edited, list reversed; objects shared with the input left alone), optionally a differently configured call, then the same call again with an identical result required. distinct = distinct canonical input dump; non-trivial = more than one slice and at "
              "least one coordinate held by two cells",
